@@ -129,6 +129,9 @@ def reproduced(kind, out, bad):
     if kind == 'fault-free-backup-errors':
         return bool((not out.get('backup_ok')) or out.get('stat_errors') or out.get('backup_errors'))
     if kind in ('existing-file-changed', 'path-written-twice'):
+        if any('removed by the backup' in p for p in bad.get('problems', [])):
+            # natively: some backup (the run under test or the follow-up) removes a file
+            return any(o[0] in ('remove_file', 'remove_dir_all') for o in out.get('ops', []))
         return any(o[0] == 'rewrite' for o in out.get('ops', []))
     if kind == 'validate-false-alarm':
         return bool(out.get('validate_errors')) or out.get('validate_ok') is False
